@@ -371,6 +371,129 @@ fn dump_fp12<P: Fp12Config>() -> Arg {
     r
 }
 
+
+// ---------------- toy towers over small primes (exhaustive enumeration) ----------------
+// Constants computed by schoolbook exponentiation (see props/C02/NOTES.md); the frobenius_pow
+// op re-checks every table entry against x^(p^k).
+mod toy {
+    use ark_ff::{
+        fields::{
+            fp6_2over3, Fp12Config, Fp2, Fp2Config, Fp3, Fp3Config, Fp4Config, Fp64, Fp6Config,
+            MontBackend, MontConfig,
+        },
+        AdditiveGroup, Field, Fp6, MontFp,
+    };
+
+    #[derive(MontConfig)]
+    #[modulus = "7"]
+    #[generator = "3"]
+    pub struct F7Config;
+    pub type F7 = Fp64<MontBackend<F7Config, 1>>;
+
+    #[derive(MontConfig)]
+    #[modulus = "13"]
+    #[generator = "2"]
+    pub struct F13Config;
+    pub type F13 = Fp64<MontBackend<F13Config, 1>>;
+
+    // toy7: F7[u]/(u^2+1), [v]/(v^3 - (1+2u)), [w]/(w^2 - v)
+    pub struct T7Fq2Config;
+    pub type T7Fq2 = Fp2<T7Fq2Config>;
+    impl Fp2Config for T7Fq2Config {
+        type Fp = F7;
+        const NONRESIDUE: F7 = MontFp!("6");
+        const FROBENIUS_COEFF_FP2_C1: &'static [F7] = &[MontFp!("1"), MontFp!("6")];
+    }
+    #[derive(Clone, Copy)]
+    pub struct T7Fq6Config;
+    pub type T7Fq6 = Fp6<T7Fq6Config>;
+    const fn t7(a: F7, b: F7) -> T7Fq2 {
+        T7Fq2::new(a, b)
+    }
+    impl Fp6Config for T7Fq6Config {
+        type Fp2Config = T7Fq2Config;
+        const NONRESIDUE: T7Fq2 = t7(MontFp!("1"), MontFp!("2"));
+        const FROBENIUS_COEFF_FP6_C1: &'static [T7Fq2] = &[
+            t7(MontFp!("1"), MontFp!("0")),
+            t7(MontFp!("4"), MontFp!("4")),
+            t7(MontFp!("4"), MontFp!("0")),
+            t7(MontFp!("2"), MontFp!("2")),
+            t7(MontFp!("2"), MontFp!("0")),
+            t7(MontFp!("1"), MontFp!("1")),
+        ];
+        const FROBENIUS_COEFF_FP6_C2: &'static [T7Fq2] = &[
+            t7(MontFp!("1"), MontFp!("0")),
+            t7(MontFp!("0"), MontFp!("4")),
+            t7(MontFp!("2"), MontFp!("0")),
+            t7(MontFp!("0"), MontFp!("1")),
+            t7(MontFp!("4"), MontFp!("0")),
+            t7(MontFp!("0"), MontFp!("2")),
+        ];
+    }
+    #[derive(Clone, Copy)]
+    pub struct T7Fq12Config;
+    impl Fp12Config for T7Fq12Config {
+        type Fp6Config = T7Fq6Config;
+        const NONRESIDUE: T7Fq6 = T7Fq6::new(T7Fq2::ZERO, T7Fq2::ONE, T7Fq2::ZERO);
+        const FROBENIUS_COEFF_FP12_C1: &'static [T7Fq2] = &[
+            t7(MontFp!("1"), MontFp!("0")),
+            t7(MontFp!("1"), MontFp!("2")),
+            t7(MontFp!("5"), MontFp!("0")),
+            t7(MontFp!("5"), MontFp!("3")),
+            t7(MontFp!("4"), MontFp!("0")),
+            t7(MontFp!("4"), MontFp!("1")),
+            t7(MontFp!("6"), MontFp!("0")),
+            t7(MontFp!("6"), MontFp!("5")),
+            t7(MontFp!("2"), MontFp!("0")),
+            t7(MontFp!("2"), MontFp!("4")),
+            t7(MontFp!("3"), MontFp!("0")),
+            t7(MontFp!("3"), MontFp!("6")),
+        ];
+    }
+
+    // toy13: F13[u]/(u^2 - 2), [w]/(w^2 - u)
+    pub struct T13Fq2Config;
+    pub type T13Fq2 = Fp2<T13Fq2Config>;
+    impl Fp2Config for T13Fq2Config {
+        type Fp = F13;
+        const NONRESIDUE: F13 = MontFp!("2");
+        const FROBENIUS_COEFF_FP2_C1: &'static [F13] = &[MontFp!("1"), MontFp!("12")];
+    }
+    pub struct T13Fq4Config;
+    impl Fp4Config for T13Fq4Config {
+        type Fp2Config = T13Fq2Config;
+        const NONRESIDUE: T13Fq2 = T13Fq2::new(F13::ZERO, F13::ONE);
+        const FROBENIUS_COEFF_FP4_C1: &'static [F13] =
+            &[MontFp!("1"), MontFp!("8"), MontFp!("12"), MontFp!("5")];
+    }
+
+    // toy7c: F7[v]/(v^3 - 3), [w]/(w^2 - v)
+    pub struct T7Fq3Config;
+    pub type T7Fq3 = Fp3<T7Fq3Config>;
+    impl Fp3Config for T7Fq3Config {
+        type Fp = F7;
+        const NONRESIDUE: F7 = MontFp!("3");
+        const TWO_ADICITY: u32 = 1;
+        const TRACE_MINUS_ONE_DIV_TWO: &'static [u64] = &[85];
+        const QUADRATIC_NONRESIDUE_TO_T: T7Fq3 = T7Fq3::new(MontFp!("6"), F7::ZERO, F7::ZERO);
+        const FROBENIUS_COEFF_FP3_C1: &'static [F7] = &[MontFp!("1"), MontFp!("2"), MontFp!("4")];
+        const FROBENIUS_COEFF_FP3_C2: &'static [F7] = &[MontFp!("1"), MontFp!("4"), MontFp!("2")];
+    }
+    pub struct T7Fq6bConfig;
+    impl fp6_2over3::Fp6Config for T7Fq6bConfig {
+        type Fp3Config = T7Fq3Config;
+        const NONRESIDUE: T7Fq3 = T7Fq3::new(F7::ZERO, F7::ONE, F7::ZERO);
+        const FROBENIUS_COEFF_FP6_C1: &'static [F7] = &[
+            MontFp!("1"),
+            MontFp!("3"),
+            MontFp!("2"),
+            MontFp!("6"),
+            MontFp!("4"),
+            MontFp!("5"),
+        ];
+    }
+}
+
 macro_rules! tower_232 {
     ($krate:ident, $op:expr, $kind:expr, $a:expr) => {
         match ($op, $kind) {
@@ -421,6 +544,29 @@ fn run(op: &str, a: &[Arg]) -> Vec<Arg> {
         7 => tower_32!(ark_bw6_761, op, kind, a),
         8 => tower_32!(ark_bw6_767, op, kind, a),
         9 => tower_32!(ark_cp6_782, op, kind, a),
+        10 => match (op, kind) {
+            ("dump", 2) => ok(vec![dump_fp2::<toy::T7Fq2Config>()]),
+            ("dump", 6) => ok(vec![dump_fp6a::<toy::T7Fq6Config>()]),
+            ("dump", 12) => ok(vec![dump_fp12::<toy::T7Fq12Config>()]),
+            (o, 2) => run_fp2::<toy::T7Fq2Config>(o, a),
+            (o, 6) => run_fp6a::<toy::T7Fq6Config>(o, a),
+            (o, 12) => run_fp12::<toy::T7Fq12Config>(o, a),
+            _ => unsupported(),
+        },
+        11 => match (op, kind) {
+            ("dump", 2) => ok(vec![dump_fp2::<toy::T13Fq2Config>()]),
+            ("dump", 4) => ok(vec![dump_fp4::<toy::T13Fq4Config>()]),
+            (o, 2) => run_fp2::<toy::T13Fq2Config>(o, a),
+            (o, 4) => run_fp4::<toy::T13Fq4Config>(o, a),
+            _ => unsupported(),
+        },
+        12 => match (op, kind) {
+            ("dump", 3) => ok(vec![dump_fp3::<toy::T7Fq3Config>()]),
+            ("dump", 7) => ok(vec![dump_fp6b::<toy::T7Fq6bConfig>()]),
+            (o, 3) => run_fp3::<toy::T7Fq3Config>(o, a),
+            (o, 7) => run_fp6b::<toy::T7Fq6bConfig>(o, a),
+            _ => unsupported(),
+        },
         _ => unsupported(),
     }
 }
